@@ -29,6 +29,9 @@ func toScoreJ(s eval.Score) scoreJ {
 
 type c09Case struct {
 	A, B, C scoreJ
+	// Derive: operations applied to A before the laws are judged ('i' increment, 'd' decrement,
+	// 'n' negate), e.g. "di": the score a mate-in-1 bound turns into one ply down and up again.
+	Derive string `json:"derive,omitempty"`
 }
 
 func discreteScores() []eval.Score {
@@ -46,6 +49,31 @@ func isMate(s eval.Score) bool { return s.Type == eval.MateInX }
 // checkC09 judges every law of the property on the triple (A, B, C).
 var checkC09 = def("C09/order", func(c c09Case) error {
 	a, b, cc := c.A.score(), c.B.score(), c.C.score()
+	// (0) a heuristic value is a heuristic value, whatever the number: the constructor keeps it
+	for _, x := range []scoreJ{c.A, c.B, c.C} {
+		if eval.ScoreType(x.T) == eval.Heuristic {
+			f := eval.Pawns(math.Float32frombits(x.Bits))
+			if got := eval.HeuristicScore(f); got.Type != eval.Heuristic || math.Float32bits(float32(got.Pawns)) != x.Bits {
+				return fmt.Errorf("HeuristicScore(%v) = %v (type %d): not the heuristic value it was given", f, got, got.Type)
+			}
+		}
+	}
+	// derived scores: what the searches actually handle are results of these operations, not
+	// only freshly constructed values
+	for _, d := range c.Derive {
+		switch d {
+		case 'i':
+			if mateOK(a) {
+				a = eval.IncrementMateDistance(a)
+			}
+		case 'd':
+			a = eval.DecrementMateDistance(a)
+		case 'n':
+			if negOK(a) {
+				a = a.Negate()
+			}
+		}
+	}
 	va, oka := refsearch.FromScore(a)
 	vb, okb := refsearch.FromScore(b)
 	vc, okc := refsearch.FromScore(cc)
@@ -136,7 +164,7 @@ func TestC09_discrete(t *testing.T) {
 			}
 			// third element: sweep deterministically through the set
 			c := ds[(i*7+j*13)%len(ds)]
-			cs := c09Case{toScoreJ(a), toScoreJ(b), toScoreJ(c)}
+			cs := c09Case{A: toScoreJ(a), B: toScoreJ(b), C: toScoreJ(c)}
 			if err := checkC09(cs); err != nil {
 				failCase(t, key, cs, err)
 			}
@@ -162,7 +190,7 @@ func TestC09_discrete(t *testing.T) {
 				if k%n != idx {
 					continue
 				}
-				cs := c09Case{toScoreJ(a), toScoreJ(b), toScoreJ(c)}
+				cs := c09Case{A: toScoreJ(a), B: toScoreJ(b), C: toScoreJ(c)}
 				if err := checkC09(cs); err != nil {
 					failCase(t, key, cs, err)
 				}
@@ -199,14 +227,19 @@ func genScore(t *rapid.T, label string) eval.Score {
 		if f != f {
 			f = 0 // NaN is outside the domain (evaluations are finite numbers)
 		}
-		return eval.HeuristicScore(eval.Pawns(f))
+		// (the value itself, not what the constructor makes of it: law (0) compares the two)
+		return eval.Score{Type: eval.Heuristic, Pawns: eval.Pawns(f)}
 	}
 }
 
 // TestC09_mixed draws triples mixing heuristic values over float32 with discrete scores.
 func TestC09_mixed(t *testing.T) {
 	runRapid(t, "C09/order", 400000, func(t *rapid.T) c09Case {
-		return c09Case{toScoreJ(genScore(t, "a")), toScoreJ(genScore(t, "b")), toScoreJ(genScore(t, "c"))}
+		c := c09Case{A: toScoreJ(genScore(t, "a")), B: toScoreJ(genScore(t, "b")), C: toScoreJ(genScore(t, "c"))}
+		if rapid.IntRange(0, 2).Draw(t, "derived") == 0 {
+			c.Derive = rapid.StringOfN(rapid.RuneFrom([]rune("idn")), 1, 4, -1).Draw(t, "derive")
+		}
+		return c
 	}, func(c c09Case) error {
 		a, b := c.A.score(), c.B.score()
 		nt := (isMate(a) || isMate(b)) && (a.Type == eval.Heuristic || b.Type == eval.Heuristic || c.C.score().Type == eval.Heuristic)
